@@ -172,10 +172,11 @@ ChanK(s) ==
     [] Family = "perms"   -> Permutations(1..NP(s)) \X [1..NP(s) -> {0, 1}]
     [] Family = "join"    -> 1..NP(s)
     [] Family = "corrupt" -> ObjPk(s) \X { <<"payflip", 0>>, <<"payflip", 1>>, <<"payflip", 2>>, <<"trunc", 1>>, <<"trunc", 2>>,
-                                          <<"trunc", 3>>, <<"ext", 1>> } \X BOOLEAN
-    [] Family = "writer"  -> {"store", "already", "abort"} \X {0, 1} \X {0, 1, 2, 3} \X (0..NP(s)) \X {"fwd", "objfirst"}
+                                          <<"trunc", 3>>, <<"ext", 1>>, <<"pidff", 0>> } \X BOOLEAN
+    \* ... x object cache limit (-1: default; 5 bytes: smaller than one source block, the object must end in error)
+    [] Family = "writer"  -> {"store", "already", "abort"} \X {0, 1} \X {0, 1, 2, 3} \X (0..NP(s)) \X {"fwd", "objfirst"} \X {-1, 5}
     [] Family = "clean"   -> BOOLEAN \X BOOLEAN
-    [] Family = "c04"     -> (0..NP(s)) \X ({<<"fuzzhdr", i>> : i \in 1..NP(s)} \cup {<<"xmlfdt", v>> : v \in 0..29}
+    [] Family = "c04"     -> (0..NP(s)) \X ({<<"fuzzhdr", i>> : i \in 1..NP(s)} \cup {<<"truncall", i>> : i \in 1..NP(s)} \cup {<<"xmlfdt", v>> : v \in 0..29}
                                            \cup {<<"mutseq", x>> : x \in 1..6} \cup {<<"garbage", 1>>})
     \* pseudo-random loss / duplication: seed x loss rate (percent) x duplication rate (percent)
     [] Family = "rloss"   -> (1..12) \X {3, 10, 25, 45} \X {0, 15}
@@ -194,7 +195,7 @@ ChanBuild(s, k) ==
                               sched |-> (IF k[1] > 1 THEN << <<"seq", 1, k[1] - 1>> >> ELSE <<>>)
                                         \o << <<"pm", k[1], k[2]>> >>
                                         \o (IF k[1] < n THEN << <<"seq", k[1] + 1, n>> >> ELSE <<>>)]
-    [] Family = "writer"  -> [sid |-> sid, fam |-> "writer",
+    [] Family = "writer"  -> [sid |-> sid, fam |-> "writer", rcfg |-> [max_cache |-> k[6]],
                               w |-> [ans |-> <<k[1]>>, open_fail |-> IF k[2] = 1 THEN <<1>> ELSE <<>>,
                                      write_fail |-> IF k[3] > 0 THEN << <<1, k[3]>> >> ELSE <<>>],
                               sched |-> (IF k[5] = "fwd" THEN (IF k[4] > 0 THEN << <<"seq", 1, k[4]>> >> ELSE <<>>)
